@@ -664,7 +664,7 @@ class PanicRule:
         for g in gs:
             if g.a is not None and g.a.kind == "discr" and g.a.args:
                 v = g.a.args[0]
-                if v.kind == "call" and v.v.endswith("to_zinc_string") and g.op == "Eq" and g.b.v == 1:
+                if v.kind == "call" and v.v.endswith("to_zinc_string") and ((g.op == "Eq" and g.b.v == 1) or (g.op == "Ne" and g.b.v == 0)):
                     from rules import zincwriter
 
                     ok, why = zincwriter.infallible(self.ctx)
